@@ -788,7 +788,7 @@ func (m *MsgBridgeCall) validateBasic() (err error) {
 	if err = ValidateExternalAddr(m.ChainName, m.To); err != nil {
 		return sdkerrors.ErrInvalidAddress.Wrapf("invalid to address: %s", err)
 	}
-	if m.Value.Sign() != 0 {
+	if m.Value.IsNil() || m.Value.Sign() != 0 {
 		return sdkerrors.ErrInvalidRequest.Wrap("value must be zero")
 	}
 	if err = m.Coins.Validate(); err != nil {
